@@ -475,7 +475,17 @@ def main_run(pid, tier, seed):
     except subprocess.TimeoutExpired as e:
         print("INFRA-ERROR property=%s timeout %s" % (pid, e))
         return 2
-    except Exception:
+    except Exception as e:
         traceback.print_exc()
+        # An exception that passed through paramiko frames means the real code behaved in a way the
+        # harness did not anticipate: that is a broken tie (decided like any other), not an infra error.
+        site = exc_site(e)
+        if not site.endswith("@None"):
+            ctx.broken.append({"kind": "harness-exception", "what": site,
+                               "detail": "".join(traceback.format_exception_only(type(e), e))[-300:]})
+            try:
+                return ctx.finish()
+            except Exception:
+                traceback.print_exc()
         print("INFRA-ERROR property=%s harness crashed" % pid)
         return 2
